@@ -280,6 +280,15 @@ class Ctx:
         self.broken = []           # names of theorems / correspondences that no longer check
         self.exhaustive = None
         self.log = []
+        # stale replay files of earlier runs of this property
+        rd = os.path.join(BUILD, "replay")
+        if os.path.isdir(rd) and not replay:
+            for f in os.listdir(rd):
+                if f.startswith(pid + "-"):
+                    try:
+                        os.unlink(os.path.join(rd, f))
+                    except OSError:
+                        pass
 
     @property
     def thorough(self):
@@ -317,7 +326,7 @@ class Ctx:
         """
         pid = self.pid
         dirs = dirs or [pid]
-        bad = grep_forbidden()
+        bad = grep_forbidden(set(dirs) | {"Common"})
         if bad:
             self.tie_broken("forbidden-vernacular", json.dumps(bad[:10]))
             return False
